@@ -220,3 +220,46 @@ pub fn run(t: &mut Toks) -> String {
     }
     out.join(",")
 }
+
+
+/// `seq`: the same generator array is used for two constructions, modified in place in between; the second result must
+/// be what a fresh process-independent construction of the current positions gives (no state carried from call to call).
+/// tokens: dim periodic anchor width n has_mask [mask] gens_a(3n) gens_b(3n)
+pub fn run_seq(t: &mut Toks) -> String {
+    let dim = t.dim();
+    let periodic = t.bool();
+    let anchor = t.v3();
+    let width = t.v3();
+    let n = t.usize();
+    let has_mask = t.bool();
+    let mask: Option<Vec<bool>> = if has_mask { Some((0..n).map(|_| t.bool()).collect()) } else { None };
+    let a: Vec<DVec3> = (0..n).map(|_| t.v3()).collect();
+    let b: Vec<DVec3> = (0..n).map(|_| t.v3()).collect();
+    let build = |g: &[DVec3]| match &mask {
+        Some(m) => Voronoi::build_partial(g, m, anchor, width, dim, periodic),
+        None => Voronoi::build(g, anchor, width, dim, periodic),
+    };
+    let integ = |g: &[DVec3]| Voronoi::from(&VoronoiIntegrator::build(g, mask.as_deref(), anchor, width, dim, periodic));
+    let mut v = a.clone();
+    let first = voronoi_json(&build(&v));
+    let first_i = voronoi_json(&integ(&v));
+    for i in 0..n {
+        v[i] = b[i];
+    }
+    let second = voronoi_json(&build(&v));
+    let second_i = voronoi_json(&integ(&v));
+    let fresh_b = b.clone();
+    let fresh = voronoi_json(&build(&fresh_b));
+    let fresh_i = voronoi_json(&integ(&fresh_b));
+    // and back again
+    for i in 0..n {
+        v[i] = a[i];
+    }
+    let third = voronoi_json(&build(&v));
+    format!(
+        "\"same\":{},\"same_integrator\":{},\"back_same\":{},\"second\":{},\"fresh\":{}",
+        second == fresh, second_i == fresh_i, third == first && first == first_i,
+        if second == fresh { "null".to_string() } else { second.clone() },
+        if second == fresh { "null".to_string() } else { fresh.clone() }
+    )
+}
